@@ -22,9 +22,14 @@ pub mod smt_gen;
 pub mod c16;
 pub mod c17;
 pub mod c18;
+pub mod c19;
 pub mod c21;
 pub mod c22;
+pub mod c23;
 pub mod c25;
+pub mod c35;
+pub mod c36;
+pub mod c29;
 pub mod c30;
 pub mod insn_bench;
 pub mod c32;
@@ -48,9 +53,14 @@ pub fn run(cfg: &Cfg) -> Option<Report> {
         "C16" => c16::run(cfg),
         "C17" => c17::run(cfg),
         "C18" => c18::run(cfg),
+        "C19" => c19::run(cfg),
         "C21" => c21::run(cfg),
         "C22" => c22::run(cfg),
+        "C23" => c23::run(cfg),
         "C25" => c25::run(cfg),
+        "C35" => c35::run(cfg),
+        "C36" => c36::run(cfg),
+        "C29" => c29::run(cfg),
         "C30" => c30::run(cfg),
         "C32" => c32::run(cfg),
         _ => return None,
